@@ -106,7 +106,7 @@ func sendOrder(e *Env) {
 	// the dial timeout is a knob that must not matter to an established
 	// connection, however long the server stalls
 	timeout := []time.Duration{0, 0, 2 * time.Second, 10 * time.Second, 30 * time.Second}[g.Intn(5)]
-	s := startSession(e, ClientOpts{Nick: "me", Flood: true, PingFreq: ping, Track: g.Pct(30), Timeout: timeout}, func(l *simnet.Link) {
+	s := startSession(e, g.Knobs(ClientOpts{Nick: "me", Flood: true, PingFreq: ping, Track: g.Pct(30), Timeout: timeout}), func(l *simnet.Link) {
 		l.ChunkMode = g.Intn(4)
 		l.Window = []int{0, 0, 40, 200, 2000}[g.Intn(5)]
 	})
